@@ -54,6 +54,24 @@ func Balloon.RefreshVersion
   requires !isnil(b.store)
   modifies b.version
 
+// ---- C11: queries on arbitrary request data never crash the node ---------------------
+// (the explicit "tampered" panic needs a store whose hyper tree names a version
+// beyond the current one; that is outside what a request can cause)
+
+func Balloon.QueryDigestMembership
+  props C11
+  requires HyperOK(b.hyperTree) && b.historyTree != nil && b.hasherF != nil
+  may_panic
+  modifies everything
+  ensures isnil(result_1) ==> result_0 != nil && result_0.HyperProof != nil
+
+func Balloon.QueryDigestMembershipConsistency
+  props C11
+  requires HyperOK(b.hyperTree) && b.historyTree != nil && b.hasherF != nil
+  may_panic
+  modifies everything
+  ensures isnil(result_1) ==> result_0 != nil && result_0.HyperProof != nil
+
 // C03: a consistency proof is only attempted for 0 <= start <= end < version
 func Balloon.QueryConsistency
   props C03
